@@ -58,7 +58,7 @@ def run(tier, seed):
         ck.count()
         for f in d['features']: feats[f] = feats.get(f, 0) + 1
         if A.tape(din, False) != A.tape(d, False): rt_bad += 1
-        case = {'doc': {k: d[k] for k in ('stories', 'comments', 'next_uid', 'rpr_table')}}
+        case = {'doc': A.doc_core(d)}
         if err: ck.violation('oracle', case, 'RedlineEngine(...).save_to_stream() raised ' + err); continue
         dout = A.read(ob, table=din['rpr_table'])
         if A.tape(dout) != A.tape(din):
